@@ -280,3 +280,9 @@ def _(ctx):
             z = t2.f[nm]
             ctx.prove('path%d.%s' % (k, nm), ax, z3.If(sw, z3.And(*[z3real(z.get(0, j)) == z3real(z0.get(1, j)) for j in range(2)] + [z3real(z.get(1, j)) == z3real(z0.get(0, j)) for j in range(2)]),
                                                        z3.And(*[z3real(z.get(i, j)) == z3real(z0.get(i, j)) for i in range(2) for j in range(2)])))
+
+
+def fidelity(tier, seed):
+    """A-FRONT guard: MSSM a_mu and mass-matrix functions, interpreter (float mode) vs compiled real code on real spectra"""
+    from gm2v import fidelity as _fid
+    return _fid.mssm_model_guard(seed=seed)
